@@ -139,13 +139,10 @@ func allJobs(f lib.Flags) []job {
 // --- the 8192-block event-index window (thorough tier) -------------------------------------------------
 
 func bloomJobs(f lib.Flags) []job {
-	var jobs []job
-	for _, ns := range []bool{false, true} {
-		ns := ns
-		name := jobName("bloom-window/new=%v", ns)
-		jobs = append(jobs, job{name: name, run: func(e *env) { bloomWindow(e, name, ns) }})
-	}
-	return jobs
+	// New state backend only: on the memory database every legacy history read and every IndexedBatch
+	// iterator copies the whole store, which is quadratic at this chain length.
+	name := jobName("bloom-window/new=%v", true)
+	return []job{{name: name, run: func(e *env) { bloomWindow(e, name, true) }}}
 }
 
 // 8200 blocks: a prune that stops inside the first aggregated-bloom window must keep that window's
